@@ -248,10 +248,15 @@ def trace_rows(run, tid, gap):
             rows.append({"tid": tid, "k": "minor", "sols": sols})
             mkeys = [s["key"] for s in sols]
     rep = []
+    used_m = set()
     if run["result"] is not None and min_ev and min_ev[0]["returned"]:
         for s in run["result"]:
             k = _nkey(s)
-            idx = next((i + 1 for i, kk in enumerate(mkeys) if kk == k), 0)
+            # two refined candidates can have the same content (two optimal assignments of the minor model that
+            # denote the same alleles): each report entry is matched to a candidate of its own
+            idx = next((i + 1 for i, kk in enumerate(mkeys) if kk == k and i not in used_m), 0)
+            if idx:
+                used_m.add(idx - 1)
             dip = sorted(i for h in (s["diplotype"] or []) for i in h if i >= 0)
             rep.append({"idx": idx, "final": _fix(s["score"]), "chain": {
                 "copy_majors": sorted(c["major"] for c in s["copies"]), "major_alleles": sorted(s["major"][0]),
